@@ -273,6 +273,29 @@ fn check_typed<T: DeserializeOwned + std::fmt::Debug + PartialEq>(c: &Case) -> O
         }
         // later documents all empty / null: not fixed by the property
     }
+    // the same under options: a limit that the second document breaches (documents, events) must
+    // not turn the stream into an accepted single document either
+    if c.parts.len() >= 2 && c.parts[1..].iter().any(|p| !p.nullish()) {
+        for (label, f) in [
+            ("max_documents = 1", (|b: &mut vcheck::opts::BudgetD| b.max_documents = 1) as fn(&mut vcheck::opts::BudgetD)),
+            ("max_documents = 2", |b| b.max_documents = 2),
+            ("max_events = 12", |b| b.max_events = 12),
+            ("max_nodes = 6", |b| b.max_nodes = 6),
+        ] {
+            let mut b = vcheck::opts::BudgetD::default_budget();
+            f(&mut b);
+            let o = vcheck::opts::DeOpts { budget: vcheck::opts::BudgetSel::Explicit(b), ..Default::default() };
+            let rs = [
+                ("from_str_with_options", serde_saphyr::from_str_with_options::<T>(&text, o.build()).map_err(|e| es(&e))),
+                ("from_reader_with_options", serde_saphyr::from_reader_with_options::<_, T>(Slow(text.as_bytes(), 3), o.build()).map_err(|e| es(&e))),
+            ];
+            for (name, r) in &rs {
+                if let Ok(v) = r {
+                    return Outcome::Fail(format!("{name} with {label} accepted a stream with a second document: {v:?} (stream {text:?})"));
+                }
+            }
+        }
+    }
     Outcome::Pass
 }
 
@@ -373,4 +396,10 @@ impl Property for C11 {
 
 fn main() {
     engine::main::<C11>()
+}
+
+/// entry point of the libFuzzer target `fuzz/fuzz_targets/c11.rs`
+#[allow(dead_code)]
+pub fn fuzz(data: &[u8]) {
+    engine::fuzz_one::<C11>(data)
 }
